@@ -138,7 +138,7 @@ pub fn run(args: &Args) {
     let paths = [
         "cpu48", "cpu128", "cpu128_c000_bank5", "cpu128_shadow", "ldir48", "fastload48", "sna48", "sna128",
         "sna128_shadow", "szx48", "szx128_compressed", "szx128_shadow", "scr48", "scr128", "poke48", "poke128_shadow",
-        "fastload128_c000_bank5", "fastload128_shadow",
+        "fastload128_c000_bank5", "fastload128_shadow", "cpu128_locked", "cpu128_shadow_locked",
     ];
     for round in 0..rounds {
         for (pi, path) in paths.iter().enumerate() {
@@ -160,6 +160,20 @@ pub fn run(args: &Args) {
                     for (o, b) in scr.iter().enumerate() {
                         cpu_write(&mut emu, 0x4000 + o as u16, *b);
                     }
+                }
+                "cpu128_locked" | "cpu128_shadow_locked" => {
+                    // a picture in the displayed screen bank, another one in the other screen bank, paging locked with the
+                    // display bit as it is - then a write that would switch screens: it must be ignored as a whole
+                    let keep = if shadow { 8u8 } else { 0 };
+                    cpu_out(&mut emu, 0x7FFD, 7 | keep);
+                    for (o, b) in scr.iter().enumerate() {
+                        let (v5, v7) = if shadow { (!*b, *b) } else { (*b, !*b) };
+                        cpu_write(&mut emu, 0x4000 + o as u16, v5);
+                        cpu_write(&mut emu, 0xC000 + o as u16, v7);
+                    }
+                    cpu_out(&mut emu, 0x7FFD, keep | 0x20);
+                    cpu_out(&mut emu, 0x7FFD, keep ^ 8);
+                    cpu_out(&mut emu, 0x3FFD, (keep ^ 8) | 0x07);
                 }
                 "cpu128_c000_bank5" => {
                     cpu_out(&mut emu, 0x7FFD, 5);
@@ -252,7 +266,11 @@ pub fn run(args: &Args) {
                 idle(&mut emu);
             }
             // what the ULA sees: bank 5, or bank 7 when the shadow screen is displayed
-            let visible: Vec<u8> = if shadow {
+            let locked = path.contains("locked");
+            let visible: Vec<u8> = if shadow && locked {
+                // paging is locked: bank 7 is read through the memory hook
+                emu.verif_ram_bank(7)[..6912].to_vec()
+            } else if shadow {
                 let (latch, _) = emu.verif_paging();
                 assert!(latch & 8 != 0, "shadow screen not selected on path {path}");
                 // read bank 7 through the window at 0xC000 (page it in with the display bit kept)
@@ -272,7 +290,7 @@ pub fn run(args: &Args) {
             // writes that do not touch the visible display file (beyond it in the same bank, other banks, the other
             // screen bank, addresses that share low address bits with display bytes) must leave the picture alone.
             // The spec decides through the memory map which of them, if any, reach the visible bytes.
-            {
+            if !locked {
                 let keep = if shadow { 8u8 } else { 0 };
                 poke_bytes(&mut emu, 0x8010, &[0xED, 0x79, 0x77]);
                 let mut ws: Vec<Value> = vec![];
